@@ -1,15 +1,18 @@
 #!/bin/bash
 # usage: seeded_run.sh [id ...]   -- runs each stored seeded change (seeded/<id>/patch.diff) against the quick check of its
-# property in a scratch worktree and records the outcome in seeded/<id>/result.txt.  Exit 0 iff every change is detected.
+# property (harness/mutest.sh: scratch worktree of /repo + isolated copy of /verif) and records the outcome in
+# seeded/<id>/result.txt.  JOBS changes run side by side (default 4).  Exit 0 iff every change is detected.
 cd "$(dirname "$0")/.."
 ids=("$@"); [ ${#ids[@]} -eq 0 ] && ids=($(ls seeded))
-rc=0
-for id in "${ids[@]}"; do
+one() {
+  id=$1
   prop=$(python3 -c "import json;print(json.load(open('seeded/$id/meta.json'))['property'])")
   out=$(harness/mutest.sh "$PWD/seeded/$id/patch.diff" $prop 2>&1 | grep -v "^KNOWN-FINDING")
   line=$(echo "$out" | grep "tier=" | tail -1)
-  if echo "$out" | grep -q "^VIOLATION property=$prop"; then verdict=DETECTED; else verdict=MISSED; rc=1; fi
+  if echo "$out" | grep -q "^VIOLATION property=$prop"; then verdict=DETECTED; else verdict=MISSED; fi
   nf=$(echo "$out" | grep -c "no-failing-input-found")
   echo "$id $prop $verdict $( [ $nf -gt 0 ] && echo '(no failing input found: broken proof/correspondence only)' ) :: $line" | tee seeded/$id/result.txt
-done
-exit $rc
+}
+export -f one
+printf "%s\n" "${ids[@]}" | xargs -P ${JOBS:-4} -I{} bash -c 'one {}' | tee .work/seeded_run.last
+! grep -q " MISSED " .work/seeded_run.last
